@@ -27,6 +27,7 @@ RULE = ("One evaluation = one seeded execution: two real Managers + "
 RULE += (' In 1/3 of runs listeners are registered late (after OPENs may have arrived).')
 RULE += (' In half of the runs application protocols greet (write, sometimes close) from inside connectionMade().')
 RULE += (' Those applications also react from inside dataReceived (answer, answer and close, close) and sometimes open the next subchannel from inside connectionLost.')
+RULE += (' A fifth configuration runs end to end: one subchannel over two real wormholes, written to after each of 5..9 losses.')
 LEVEL_TEXT = ("Seeded exploration. For every subchannel and direction the "
               "peer application's dataReceived sequence is a prefix of the "
               "writes (boundaries preserved, nothing twice) after every "
